@@ -75,6 +75,18 @@ def run_case(c):
             return res
         res['out'], res['exc'] = outcome_rep(lambda: mod.f(x=val))
         res['body_ran'] = len(journal)
+    elif obs == 'pedantic_star':
+        # the value as FIRST element of *args of a function under two stacked decorators (positional call)
+        journal = []
+        src = ('import functools\nfrom pedantic import pedantic\n\n\ndef deco(g):\n    @functools.wraps(g)\n    def w(*a, **k):\n        return g(*a, **k)\n    return w\n\n\n'
+               '@deco\n@pedantic\ndef f(*args: ANN) -> None:\n    J.append(1)\n')
+        try:
+            mod = make_module(src, dict(ctx, ANN=ann, J=journal))
+        except BaseException as ex:
+            res['out'], res['exc'] = 9, 'decoration failed: ' + repr(ex)[:100]
+            return res
+        res['out'], res['exc'] = outcome_rep(lambda: mod.f(val))
+        res['body_ran'] = len(journal)
     elif obs == 'dataclass':
         src = ('from pedantic import frozen_type_safe_dataclass\n@frozen_type_safe_dataclass\nclass D:\n    x: ANN\n')
         try:
